@@ -19,6 +19,8 @@ func checkC06(c *Ctx) {
 	c.Rule("C06-R3", "Fini only runs finish through sync.Once; finish has no other caller; the quit channel has exactly one closer")
 	c.Rule("C06-R4", "a field tested to make the screen inert is set on the shutdown path (a guard that is never written is dead)")
 	c.Rule("C06-R5", "PollEvent/PostEventWait/ChannelEvents: every blocking operation has a StopQ alternative; PollEvent returns nil on it")
+	c.Rule("C06-R6", "what disengage dismantles, engage re-establishes on every successful path: the resize callback (NotifyResize with a function that pokes the queue the main loop reads), a fresh stop channel shared with both loops, and Tty.Start")
+	c.Expect("C06-R6", 4)
 	c.Expect("C06-R1", 6)
 	c.Expect("C06-R2", 20)
 	c.Expect("C06-R3", 3)
@@ -45,7 +47,133 @@ func checkC06(c *Ctx) {
 		c06Once(c, p)
 		c06Guards(c, p)
 		c06Poll(c, p, "C06-R5")
+		c06Reengage(c, p)
 	}
+}
+
+// c06Reengage: Suspend then Resume must leave input and resize delivery
+// working.  Each thing disengage tears down must be put back by engage on
+// every path that reaches the point where the screen is marked running.
+func c06Reengage(c *Ctx, p *Prog) {
+	engage, disengage := p.Fn("tcell:(*tScreen).engage"), p.Fn("tcell:(*tScreen).disengage")
+	if engage == nil || disengage == nil {
+		c.Undecided("C06-R6", "engage/disengage", "-", "not found")
+		return
+	}
+	ttyCalls := func(fn *ssa.Function, m string) []ssa.Instruction {
+		return callsIn(fn, func(n string, cc *ssa.CallCommon) bool {
+			return cc.IsInvoke() && typeName(cc.Value.Type()) == "tcell.Tty" && cc.Method.Name() == m
+		})
+	}
+	// the point of no return in engage: the store running = true
+	var runStore ssa.Instruction
+	for _, st := range storesTo(engage, "tcell.tScreen", "running") {
+		if b, ok := constBool(st.Val); ok && b {
+			runStore = st
+		}
+	}
+	if runStore == nil {
+		c.Undecided("C06-R6", "engage:running", p.pos(engage.Pos()), "no store running = true")
+		return
+	}
+	// (a) resize callback
+	unreg := false
+	for _, call := range ttyCalls(disengage, "NotifyResize") {
+		if isNilConst(callCommon(call).Args[0]) {
+			unreg = true
+		}
+	}
+	if unreg {
+		ok, detail := false, "engage never registers a resize callback"
+		for _, call := range ttyCalls(engage, "NotifyResize") {
+			arg := callCommon(call).Args[0]
+			if isNilConst(arg) {
+				continue
+			}
+			if !instrDominates(call, runStore) {
+				detail = "NotifyResize(callback) does not dominate running = true"
+				continue
+			}
+			// the callback pokes the queue mainLoop receives from
+			var cb *ssa.Function
+			if mc, isMC := arg.(*ssa.MakeClosure); isMC {
+				cb, _ = mc.Fn.(*ssa.Function)
+			} else if f, isF := arg.(*ssa.Function); isF {
+				cb = f
+			}
+			if cb == nil {
+				detail = "callback is not a function literal"
+				continue
+			}
+			sends := ""
+			eachInstr(cb, func(in ssa.Instruction) {
+				switch x := in.(type) {
+				case *ssa.Send:
+					sends = chanName(x.Chan, nil, 0)
+				case *ssa.Select:
+					for _, st := range x.States {
+						if st.Dir == types.SendOnly {
+							sends = chanName(st.Chan, nil, 0)
+						}
+					}
+				}
+			})
+			recv := false
+			if ml := p.Fn("tcell:(*tScreen).mainLoop"); ml != nil {
+				eachInstr(ml, func(in ssa.Instruction) {
+					if sel, isSel := in.(*ssa.Select); isSel {
+						for _, st := range sel.States {
+							if st.Dir == types.RecvOnly && chanName(st.Chan, nil, 0) == sends && sends != "" {
+								recv = true
+							}
+						}
+					}
+				})
+			}
+			if sends != "" && recv {
+				ok, detail = true, "NotifyResize(callback sending on "+sends+", which mainLoop receives) dominates running = true"
+			} else {
+				detail = "the callback does not send on a channel the main loop receives from (sends on " + sends + ")"
+			}
+		}
+		c.Check(ok, "C06-R6", "engage:registers-resize-callback", p.pos(engage.Pos()), detail)
+	} else {
+		c.Trivial("C06-R6", "engage:registers-resize-callback", p.pos(disengage.Pos()), "disengage does not unregister the callback")
+	}
+	// (b) fresh stop channel stored and handed to both loops
+	var mk ssa.Value
+	for _, st := range storesTo(engage, "tcell.tScreen", "stopQ") {
+		if _, ok := st.Val.(*ssa.MakeChan); ok {
+			mk = st.Val
+		}
+	}
+	c.Check(mk != nil, "C06-R6", "engage:fresh-stop-channel", p.pos(engage.Pos()), "t.stopQ = make(chan …) (disengage closes the old one)")
+	nGo, okGo := 0, true
+	eachInstr(engage, func(in ssa.Instruction) {
+		g, ok := in.(*ssa.Go)
+		if !ok {
+			return
+		}
+		nGo++
+		has := false
+		for _, a := range g.Call.Args {
+			if a == mk {
+				has = true
+			}
+		}
+		if !has {
+			okGo = false
+		}
+	})
+	c.Check(mk != nil && nGo >= 2 && okGo, "C06-R6", "engage:loops-get-the-new-stop-channel", p.pos(engage.Pos()), fmt.Sprintf("%d goroutines started, each with the channel stored in t.stopQ", nGo))
+	// (c) Start
+	okStart := false
+	for _, call := range ttyCalls(engage, "Start") {
+		if instrDominates(call, runStore) {
+			okStart = true
+		}
+	}
+	c.Check(okStart && len(ttyCalls(disengage, "Stop")) == 1, "C06-R6", "engage:tty-start", p.pos(engage.Pos()), "Tty.Start dominates running = true; disengage stops it once")
 }
 
 func c06Locks(c *Ctx, p *Prog) {
